@@ -16,7 +16,7 @@ import (
 
 func init() { Registry["C17"] = checkC17 }
 
-var batchVariants = []string{"LF", "LF-noeol", "CRLF", "LF-blank", "CRLF-blank"}
+var batchVariants = []string{"LF", "LF-noeol", "CRLF", "LF-blank", "CRLF-blank", "LF-whitespace"}
 
 func writeBatch(path string, L, variant int) {
 	var sb strings.Builder
@@ -25,7 +25,13 @@ func writeBatch(path string, L, variant int) {
 		eol = "\r\n"
 	}
 	for i := 1; i <= L; i++ {
-		sb.WriteString(fmt.Sprintf("verifline=%d", i))
+		if variant == 5 && i%3 == 2 && i < L {
+			// a line of white space only (left behind by an editor): what counts as a line is what the simulator treats as
+			// one - the simulator case measures that with a run over the whole file
+			sb.WriteString("  \t ")
+		} else {
+			sb.WriteString(fmt.Sprintf("verifline=%d", i))
+		}
 		if i < L || variant != 1 {
 			sb.WriteString(eol)
 		}
@@ -88,6 +94,9 @@ func checkC17(c *core.Ctx) {
 		for L := 1; L <= maxL; L++ {
 			for K := 1; K <= maxK; K++ {
 				for v := range batchVariants {
+					if v == 5 {
+						continue // judged with the simulator only (below)
+					}
 					if v > 0 && !(L <= 12 && K <= 12) && (L+K+v+int(c.Seed))%7 != 0 {
 						continue // line-ending variants: all small cases, a seeded seventh of the rest
 					}
@@ -97,7 +106,7 @@ func checkC17(c *core.Ctx) {
 		}
 		for L := 1; L <= simL; L++ {
 			for K := 1; K <= simK; K++ {
-				simCases = append(simCases, pcase{L, K, int((int64(L*K) + c.Seed) % 5)})
+				simCases = append(simCases, pcase{L, K, int((int64(L*K) + c.Seed) % 6)})
 			}
 		}
 	}
@@ -145,6 +154,20 @@ func checkC17(c *core.Ctx) {
 			ranges = [][]int{}
 		}
 		launched := [][]int{}
+		nLines := pc.L
+		if pc.V == 5 {
+			// the lines of the batch are the lines the simulator executes when it is given the whole file
+			tf := filepath.Join(dir, fmt.Sprintf("s_%d_%d_%d_all.ndjson", pc.L, pc.K, pc.V))
+			core.Run(dir, []string{"HERMES_VERIF_TRACE=" + tf}, 60*time.Second, nil, sim, "-module", "batch", "-concurrent", "3", "-batch", bf)
+			evs, _ := core.ReadNDJSON(tf)
+			nLines = 0
+			for _, e := range evs {
+				if e["ev"] == "disp.launch" {
+					nLines++
+				}
+			}
+			os.Remove(tf)
+		}
 		for ri, r := range ranges {
 			tf := filepath.Join(dir, fmt.Sprintf("s_%d_%d_%d_%d.ndjson", pc.L, pc.K, pc.V, ri))
 			core.Run(dir, []string{"HERMES_VERIF_TRACE=" + tf}, 60*time.Second, nil, sim, "-module", "batch", "-concurrent", "3", "-batch", bf, "-lines", fmt.Sprintf("%d-%d", r[0], r[1]))
@@ -160,7 +183,7 @@ func checkC17(c *core.Ctx) {
 			launched = append(launched, got)
 			os.Remove(tf)
 		}
-		simEvents[i] = map[string]interface{}{"ev": "exec", "L": pc.L, "K": pc.K, "v": pc.V, "list": ranges, "launched": launched}
+		simEvents[i] = map[string]interface{}{"ev": "exec", "L": nLines, "K": pc.K, "v": pc.V, "list": ranges, "launched": launched}
 		os.Remove(bf)
 	})
 	trace := filepath.Join(dir, "trace.ndjson")
